@@ -35,7 +35,7 @@ use libp2p_identity::PeerId;
 use libp2p_swarm::{
     ConnectionDenied, ConnectionHandler, ConnectionId, NetworkBehaviour, NewExternalAddrCandidate,
     NotifyHandler, THandler, THandlerInEvent, THandlerOutEvent, ToSwarm,
-    behaviour::{ConnectionClosed, DialFailure, FromSwarm},
+    behaviour::{ConnectionClosed, ConnectionEstablished, DialFailure, FromSwarm},
     dial_opts::{self, DialOpts},
     dummy,
 };
@@ -141,6 +141,48 @@ impl Behaviour {
         }
     }
 
+    /// Bookkeeping for a connection that is established for good, i.e. that no behaviour denied.
+    fn on_connection_established(
+        &mut self,
+        ConnectionEstablished {
+            peer_id,
+            connection_id,
+            endpoint,
+            ..
+        }: ConnectionEstablished,
+    ) {
+        if endpoint.is_relayed() {
+            return;
+        }
+
+        self.direct_connections
+            .entry(peer_id)
+            .or_default()
+            .insert(connection_id);
+
+        let ConnectedPoint::Dialer { role_override, .. } = endpoint else {
+            return;
+        };
+
+        // Whether this is a connection requested by this behaviour.
+        if let Some(&relayed_connection_id) = self.direct_to_relayed_connections.get(&connection_id)
+        {
+            if *role_override == Endpoint::Listener {
+                assert!(
+                    self.outgoing_direct_connection_attempts
+                        .remove(&(relayed_connection_id, peer_id))
+                        .is_some(),
+                    "state mismatch"
+                );
+            }
+
+            self.queued_events.extend([ToSwarm::GenerateEvent(Event {
+                remote_peer_id: peer_id,
+                result: Ok(connection_id),
+            })]);
+        }
+    }
+
     fn on_connection_closed(
         &mut self,
         ConnectionClosed {
@@ -173,7 +215,7 @@ impl NetworkBehaviour for Behaviour {
     fn handle_established_inbound_connection(
         &mut self,
         connection_id: ConnectionId,
-        peer: PeerId,
+        _peer: PeerId,
         local_addr: &Multiaddr,
         remote_addr: &Multiaddr,
     ) -> Result<THandler<Self>, ConnectionDenied> {
@@ -189,10 +231,6 @@ impl NetworkBehaviour for Behaviour {
             // TODO: We could make two `handler::relayed::Handler` here, one inbound one outbound.
             return Ok(Either::Left(handler));
         }
-        self.direct_connections
-            .entry(peer)
-            .or_default()
-            .insert(connection_id);
 
         assert!(
             !self
@@ -206,8 +244,8 @@ impl NetworkBehaviour for Behaviour {
 
     fn handle_established_outbound_connection(
         &mut self,
-        connection_id: ConnectionId,
-        peer: PeerId,
+        _connection_id: ConnectionId,
+        _peer: PeerId,
         addr: &Multiaddr,
         role_override: Endpoint,
         port_use: PortUse,
@@ -224,28 +262,6 @@ impl NetworkBehaviour for Behaviour {
             // outbound.
         }
 
-        self.direct_connections
-            .entry(peer)
-            .or_default()
-            .insert(connection_id);
-
-        // Whether this is a connection requested by this behaviour.
-        if let Some(&relayed_connection_id) = self.direct_to_relayed_connections.get(&connection_id)
-        {
-            if role_override == Endpoint::Listener {
-                assert!(
-                    self.outgoing_direct_connection_attempts
-                        .remove(&(relayed_connection_id, peer))
-                        .is_some(),
-                    "state mismatch"
-                );
-            }
-
-            self.queued_events.extend([ToSwarm::GenerateEvent(Event {
-                remote_peer_id: peer,
-                result: Ok(connection_id),
-            })]);
-        }
         Ok(Either::Right(dummy::ConnectionHandler))
     }
 
@@ -334,6 +350,9 @@ impl NetworkBehaviour for Behaviour {
 
     fn on_swarm_event(&mut self, event: FromSwarm) {
         match event {
+            FromSwarm::ConnectionEstablished(connection_established) => {
+                self.on_connection_established(connection_established)
+            }
             FromSwarm::ConnectionClosed(connection_closed) => {
                 self.on_connection_closed(connection_closed)
             }
